@@ -10,6 +10,7 @@
     eq <keydesc> <keydesc>                  → 0|1     keydesc = rsa:<e>:<n>:<priv01>:<cert01> | ec:<bits>:<x>:<y>:… | ed:<hex>:…
     write <rsa|ec|ed> <hasPrivate 0|1> <none|other|b:<hex>|s:<hex>>    → ok PEM TraditionalOpenSSL <NoEncryption|Best:<hex>> | exc <Class>
     writefile <cls> <0|1> <pass> <none|octal existing mode> <octal umask>  → <call> | <absent | <octal mode> key|nokey>
+    dest <missing|existing:<oct>|missingparent|dangling|symlink:<oct>|directory> <octal umask>  → ok <mode> created|kept | exc <Class>
     mode <none|octal existing mode> <octal umask>       → octal mode of the key file after writing
 -/
 import PV.Props.C36
@@ -137,6 +138,22 @@ def step (line : String) : String :=
         | none => "absent"
         | some fa => toOctal fa.mode ++ (if fa.holdsKey then " key" else " nokey"))
     | _, _, _, _ => "bad-op"
+  | ["dest", st, um] =>
+    let d : Option KeyWrite.Dest :=
+      match st.splitOn ":" with
+      | ["missing"] => some .missing
+      | ["missingparent"] => some .missingParent
+      | ["dangling"] => some .danglingSymlink
+      | ["directory"] => some .directory
+      | ["existing", m] => (octal? m).map .existing
+      | ["symlink", m] => (octal? m).map .symlinkTo
+      | _ => none
+    match d, octal? um with
+    | some d, some u =>
+      match KeyWrite.openDest d u with
+      | .ok (m, created) => "ok " ++ toOctal m ++ (if created then " created" else " kept")
+      | .error e => "exc " ++ e.name
+    | _, _ => "bad-op"
   | ["mode", ex, um] =>
     match octal? um with
     | some u =>
